@@ -28,6 +28,7 @@ type Clause struct {
 	Loop     int
 	VarNames []string
 	VarTypes []string
+	VarLocal []string // source-level local each VarName is bound to (defaults to the same name)
 	Canary   bool
 	// assert@call
 	Callee  string
@@ -88,6 +89,7 @@ type specFile struct {
 }
 
 type ContractSet struct {
+	mapInvs   [][2]string
 	contracts []*Contract
 	externs   []*ExternContract
 	files     map[string]*specFile // by pkgDir
@@ -191,6 +193,15 @@ func (cs *ContractSet) parseFile(path, pkgDir string, extern bool) {
 			} else {
 				sf.goDecls = append(sf.goDecls, rest)
 			}
+		case word == "mapinv":
+			f := strings.Fields(rest)
+			if len(f) == 2 {
+				path := modPath
+				if pkgDir != "" {
+					path += "/" + pkgDir
+				}
+				cs.mapInvs = append(cs.mapInvs, [2]string{"G:" + path + "." + f[0], f[1]})
+			}
 		case word == "contract":
 			cur = &Contract{RawKey: rest, Pkg: pkgDir, File: where}
 			cur.Key = contractKey(pkgDir, rest)
@@ -268,6 +279,27 @@ func (cs *ContractSet) parseFile(path, pkgDir string, extern bool) {
 								cl.ExtraParams = splitParams(text[1:j])
 								text = strings.TrimSpace(text[j+1:])
 								break
+							}
+						}
+					}
+				}
+				if strings.HasPrefix(text, "uses ") {
+					// uses name type, name type label: expr   -- the list ends at the first "ident:" token
+					rest := text[5:]
+					idx := regexp.MustCompile(`(^|\s)[A-Za-z0-9_.\-]+:\s`).FindStringIndex(rest)
+					if idx != nil {
+						decl := strings.TrimSpace(rest[:idx[0]])
+						text = strings.TrimSpace(rest[idx[0]:])
+						for _, d := range splitParams(decl) {
+							j := strings.Index(d, " ")
+							if j > 0 {
+								nm, loc := d[:j], d[:j]
+								if k := strings.Index(nm, "="); k > 0 {
+									nm, loc = nm[:k], nm[k+1:]
+								}
+								cl.VarNames = append(cl.VarNames, nm)
+								cl.VarLocal = append(cl.VarLocal, loc)
+								cl.VarTypes = append(cl.VarTypes, strings.TrimSpace(d[j+1:]))
 							}
 						}
 					}
@@ -627,7 +659,11 @@ func (cs *ContractSet) buildOverlay() (map[string][]byte, error) {
 				emit(cl, append(append([]string{}, sig.params...), sig.results...))
 			}
 			for _, cl := range ct.Asserts {
-				emit(cl, append(append([]string{}, sig.params...), cl.ExtraParams...))
+				ps := append(append([]string{}, sig.params...), cl.ExtraParams...)
+				for i, v := range cl.VarNames {
+					ps = append(ps, v+" "+cl.VarTypes[i])
+				}
+				emit(cl, ps)
 			}
 			for _, cl := range ct.Loops {
 				ps := append([]string{}, sig.params...)
@@ -775,6 +811,9 @@ func (cs *ContractSet) resolve(e *Engine) {
 			return nil
 		}
 		return sp.Func(name)
+	}
+	for _, mi := range cs.mapInvs {
+		e.mapInv[mi[0]] = mi[1]
 	}
 	for _, ct := range cs.contracts {
 		fn := e.funcs[ct.Key]
